@@ -318,7 +318,9 @@ func c07Judge(op string, calls []c07Call, final string) (string, string) {
 	// counters
 	all := int64(1)<<uint(n) - 1
 	sorted := append([]c07Call(nil), calls...)
-	sort.Slice(sorted, func(i, j int) bool { return bits.OnesCount64(uint64(sorted[i].Res)) < bits.OnesCount64(uint64(sorted[j].Res)) })
+	sort.Slice(sorted, func(i, j int) bool {
+		return bits.OnesCount64(uint64(sorted[i].Res)) < bits.OnesCount64(uint64(sorted[j].Res))
+	})
 	for k, c := range sorted {
 		if c.Res < 0 || c.Res > all {
 			return "impossible-result", fmt.Sprintf("caller %d got %d", c.I, c.Res)
